@@ -692,8 +692,43 @@ pub fn c12_one(c: &mut Collector, ep: &EnginePos, pi: usize, seed: u64, shard: u
 pub fn c13(c: &mut Collector, seed: u64, shard: u64, nshards: u64, thorough: bool, scale: f64) {
     let n_random = ((if thorough { 6000.0 } else { 1200.0 }) * scale).max(2.0) as u64;
     let budget: u64 = if thorough { 300_000 } else { 60_000 };
-    let positions = engine_positions(seed.wrapping_add(77), shard, nshards, n_random, false);
+    let mut positions = engine_positions(seed.wrapping_add(77), shard, nshards, n_random, false);
+    // colour-specific slips in the rare move kinds only show when such a move occurs inside the tree:
+    // e.p. families are searched from the position BEFORE the double step, promotion / special-mate
+    // families from a predecessor position (promotion moves at the root are excluded by the property)
+    {
+        let mut rng = Rng::new(mix3(seed, shard, 0xC13F));
+        let mut crafted = Vec::new();
+        workload::ep_family(shard, nshards, if thorough { 24 } else { 160 }, &mut crafted);
+        let mut frng = Rng::new(0xF20E + shard);
+        workload::ep_frozen_family(&mut frng, shard, nshards, if thorough { 32 } else { 128 }, &mut crafted);
+        for cr in &crafted {
+            positions.push(EnginePos { label: "ep-family-before-double-step", pos: cr.pre.clone(), history: vec![] });
+        }
+        let mut other = Vec::new();
+        workload::promo_family(&mut other);
+        let stride = if thorough { 8 } else { 48 };
+        for (i, cr) in other.iter().enumerate() {
+            if i as u64 % (nshards * stride) == shard {
+                if let Some((q, _)) = workload::predecessor(&mut rng, &cr.pre) {
+                    positions.push(EnginePos { label: "promotion-family-predecessor", pos: q, history: vec![] });
+                }
+            }
+        }
+        let mut sm = Vec::new();
+        workload::special_mate_family(&mut rng, if thorough { 1500 } else { 200 }, &mut sm);
+        for cr in &sm {
+            if cr.moves.is_empty() {
+                if let Some((q, _)) = workload::predecessor(&mut rng, &cr.pre) {
+                    positions.push(EnginePos { label: "special-mate-predecessor", pos: q, history: vec![] });
+                }
+            } else {
+                positions.push(EnginePos { label: "ep-mate-before-double-step", pos: cr.pre.clone(), history: vec![] });
+            }
+        }
+    }
     for ep in positions.iter() {
+        c.count(&format!("positions:{}", ep.label));
         c13_one(c, ep, budget);
     }
 }
